@@ -202,6 +202,19 @@ func (c *channel) Close(err error) {
 				maxWaitNum++
 				time.Sleep(time.Millisecond * 100)
 			}
+
+			// the sender releases its ownership (running = idle) before it re-checks the queue,
+			// so a packet enqueued in that window is still queued although nobody seems to be sending.
+			// keep going until the queue is drained (checked first) and nobody owns the sender role,
+			// sending the leftovers ourselves if the sender is gone.
+			for (c.untilWrite || maxWaitNum < 10) && (len(c.writeQueue) > 0 || atomic.LoadInt32(&c.running) != idle) {
+				if atomic.CompareAndSwapInt32(&c.running, idle, running) {
+					c.writeOnce()
+					continue
+				}
+				maxWaitNum++
+				time.Sleep(time.Millisecond * 100)
+			}
 		}
 
 		c.closeErr = err
